@@ -25,7 +25,7 @@ func b2s(b bool) string {
 
 func TestC01(t *testing.T) {
 	p := &world.Profile{Name: "reaper", Linger: true, DupTaints: true, MinGroups: 1, MaxGroups: 2, Fleet: 0, Auto: 1, Default: 1, MaxInit: 8, SmallGraces: true, Steps: 30, Stale: true,
-		Weights: with(baseWeights(), "advance", 9, "taintExt", 5, "clearNode", 3, "fault", 1, "annotate", 1, "gcNodes", 1, "forceBusy", 3, "schedule", 3, "launch", 3, "lateBind", 3, "staleWindow", 2, "gracefulDelete", 4, "raceOnWrite", 3, "oddTaintAtFloor", 1)}
+		Weights: with(baseWeights(), "advance", 9, "taintExt", 5, "clearNode", 3, "fault", 1, "annotate", 1, "gcNodes", 1, "forceBusy", 3, "schedule", 3, "launch", 3, "lateBind", 3, "staleWindow", 2, "gracefulDelete", 4, "raceOnWrite", 3, "oddTaintAtFloor", 1, "leftoverNode", 3)}
 	col := newCollector(t, "C01", "history of environment actions and scans over the real RunOnce; non-trivial = a scan that removed >=1 node while leaving >=1 tainted node in place, or that saw a tainted node within 1s of a grace boundary; distinct by (age class, empty, removed, restarted, taint value class)")
 	historyCheck(t, &historyOpts{prop: "C01", profile: p, col: col, classify: func(w *world.World, rec *world.ScanRecord) []string {
 		var keys []string
@@ -83,7 +83,7 @@ func TestC01(t *testing.T) {
 
 func TestC02(t *testing.T) {
 	p := &world.Profile{Name: "lock", MinGroups: 1, MaxGroups: 2, Fleet: 1, Auto: 1, MaxInit: 6, SmallGraces: true, Steps: 30,
-		Weights: with(baseWeights(), "advance", 10, "scan", 14, "targetUtil", 10, "cordon", 3, "taintExt", 4, "restart", 1, "fleetPlan", 1, "register", 3, "reconcile", 2, "asgEdit", 2, "drainAndForce", 2, "clearPods", 2, "zeroOut", 1, "idleBlip", 2, "refreshFails", 3)}
+		Weights: with(baseWeights(), "advance", 10, "scan", 14, "targetUtil", 10, "cordon", 3, "taintExt", 4, "restart", 1, "fleetPlan", 1, "register", 3, "reconcile", 2, "asgEdit", 2, "drainAndForce", 2, "clearPods", 2, "zeroOut", 1, "idleBlip", 2, "refreshFails", 3, "resizeThenDescribeFails", 3)}
 	col := newCollector(t, "C02", "history check; non-trivial = a scan inside a cool-down window for which the unlocked decision would have been an action, or a scan within 1s of the end of a cool-down; distinct by (offset class, would-be action, fleet)")
 	historyCheck(t, &historyOpts{prop: "C02", profile: p, col: col, classify: func(w *world.World, rec *world.ScanRecord) []string {
 		var keys []string
@@ -155,7 +155,7 @@ func TestC03(t *testing.T) {
 func TestC04(t *testing.T) {
 	p := &world.Profile{Name: "maxclamp", Linger: true, HugeMax: true, MinGroups: 1, MaxGroups: 2, Fleet: 1, Auto: 1, MaxInit: 8, SmallGraces: true, Steps: 25,
 		FaultFocus: "cloud",
-		Weights:    with(baseWeights(), "targetUtil", 12, "asgEdit", 2, "fleetPlan", 1, "fault", 3, "drainAndForce", 2, "storm", 3, "asgDeleting", 1, "refreshFails", 2, "parkedAsg", 2)}
+		Weights:    with(baseWeights(), "targetUtil", 12, "asgEdit", 2, "fleetPlan", 1, "fault", 3, "drainAndForce", 2, "storm", 3, "asgDeleting", 1, "refreshFails", 2, "parkedAsg", 2, "bumpAfterRefresh", 3)}
 	col := newCollector(t, "C04", "history check; non-trivial = a scan with a cloud increase request (or a refused one) where max_nodes differs from the cloud maximum or the need exceeds the headroom; distinct by (relation of max_nodes to cloud max, clamped, fleet, recovery, tainted-present)")
 	historyCheck(t, &historyOpts{prop: "C04", profile: p, col: col, classify: func(w *world.World, rec *world.ScanRecord) []string {
 		var keys []string
@@ -216,7 +216,7 @@ func TestC05History(t *testing.T) {
 func TestC06(t *testing.T) {
 	p := &world.Profile{Name: "bands", MinGroups: 1, MaxGroups: 2, Fleet: 1, Auto: 1, Default: 1, Starve: 1, MaxAge: 1, MaxInit: 10, SmallGraces: true, Steps: 25,
 		FaultFocus: "cloud",
-		Weights:    with(baseWeights(), "targetUtil", 16, "scan", 12, "taintExt", 2, "cordon", 1, "restart", 1, "schedule", 3, "asgEdit", 2, "fault", 2, "fleetPlan", 1, "resizeNode", 2, "launch", 3, "starveAfterScaleUp", 2, "latency", 2, "gracefulDelete", 2, "unevenStarve", 4)}
+		Weights:    with(baseWeights(), "targetUtil", 16, "scan", 12, "taintExt", 2, "cordon", 1, "restart", 1, "schedule", 3, "asgEdit", 2, "fault", 2, "fleetPlan", 1, "resizeNode", 2, "launch", 3, "starveAfterScaleUp", 2, "latency", 2, "gracefulDelete", 2, "unevenStarve", 4, "oldestWriteFails", 3)}
 	col := newCollector(t, "C06", "history check; every unlocked, in-bounds, fault-free scan is judged against the exact-rational band; non-trivial = band with a non-empty expected action or an edge class; distinct by (band set, edge, clamp binds, tainted present, trigger)")
 	historyCheck(t, &historyOpts{prop: "C06", profile: p, col: col, classify: func(w *world.World, rec *world.ScanRecord) []string {
 		var keys []string
@@ -600,7 +600,7 @@ func stringIndex(s, sub string) int {
 
 func TestC20(t *testing.T) {
 	p := &world.Profile{Name: "chaos", Linger: true, OddConfig: true, DupTaints: true, MinGroups: 1, MaxGroups: 3, Dry: 1, Fleet: 1, Auto: 1, Default: 1, Starve: 1, MaxAge: 1, MaxInit: 10, SmallGraces: true, Steps: 30, Stale: true,
-		Weights: with(baseWeights(), "oddNode", 5, "oddPod", 5, "fault", 8, "taintExt", 6, "killNode", 2, "detach", 1, "asgEdit", 1, "fleetPlan", 2, "advance", 8, "gcNodes", 1, "staleWindow", 2, "zeroOut", 1, "tinyThenZero", 2, "dupNode", 2, "terminating", 2, "latency", 1, "leftoverNode", 2, "massDeleteFails", 2, "fleetFailsEverywhere", 1, "refreshFails", 1, "clonePod", 1, "replaceAndReap", 3, "lagLookup", 3, "onlyCordonedLeft", 1)}
+		Weights: with(baseWeights(), "oddNode", 5, "oddPod", 5, "fault", 8, "taintExt", 6, "killNode", 2, "detach", 1, "asgEdit", 1, "fleetPlan", 2, "advance", 8, "gcNodes", 1, "staleWindow", 2, "zeroOut", 1, "tinyThenZero", 2, "dupNode", 2, "terminating", 2, "latency", 1, "leftoverNode", 2, "massDeleteFails", 2, "fleetFailsEverywhere", 1, "refreshFails", 1, "clonePod", 1, "replaceAndReap", 3, "lagLookup", 3, "onlyCordonedLeft", 1, "parkedAsg", 2)}
 	col := newCollector(t, "C20", "chaos histories: malformed nodes/pods, absurd taint values, API and cloud failures at drawn call indices; non-trivial = a scan in which an injected failure was hit, or an odd object was part of a processed in-bounds group; distinct by (fault kinds hit, odd kinds present, outcome)")
 	historyCheck(t, &historyOpts{prop: "C20", profile: p, col: col, extra: nextScanNormal, classify: func(w *world.World, rec *world.ScanRecord) []string {
 		var keys []string
@@ -742,6 +742,51 @@ func TestC09Big(t *testing.T)        { TestC09(t) }
 func TestC10Big(t *testing.T)        { TestC10(t) }
 func TestC19HistoryBig(t *testing.T) { TestC19History(t) }
 func TestC12Big(t *testing.T)        { TestC12(t) }
+func TestC05HistoryBig(t *testing.T) { TestC05History(t) }
+
+// ---------------------------------------------------------------- C17 (history half)
+
+// TestC17History: along histories in which the provider is rebuilt after failed refreshes and the cloud
+// group's desired capacity is changed by others between scans, every accepted SetDesiredCapacity of a
+// scale-up sets exactly (the group's real desired capacity at that moment) + (the delta escalator asked
+// its provider for), and never lowers it.
+func TestC17History(t *testing.T) {
+	p := &world.Profile{Name: "absolute-set", MinGroups: 1, MaxGroups: 2, Fleet: 0, Auto: 1, MaxInit: 8, SmallGraces: true, Steps: 25,
+		Weights: with(baseWeights(), "targetUtil", 14, "scan", 12, "asgDesired", 6, "asgEdit", 2, "refreshFails", 5, "restart", 1, "fault", 2, "launch", 3, "reconcile", 2, "register", 2, "drainAndForce", 2, "advance", 8, "rebuildThenExternalResize", 5)}
+	col := newCollector(t, "C17", "history half: scale-ups through the real provider under the real controller, with failed refreshes (provider rebuilt), external changes of the desired capacity between scans and same-scan removals; oracle: accepted SetDesiredCapacity value = real desired capacity at call time + delta passed to IncreaseSize, and above it; non-trivial = an accepted resize in a scan after a provider rebuild or an external change of the desired capacity; distinct by situation digest")
+	historyCheck(t, &historyOpts{prop: "C17", profile: p, col: col, extra: func(w *world.World, rec *world.ScanRecord) []world.Violation {
+		var out []world.Violation
+		if rec.MidScanChange {
+			return nil
+		}
+		for _, gr := range rec.Groups {
+			if w.Cfg.IsFleet(gr.G) || len(gr.IncreaseCalls) != 1 || len(gr.Increase) != 1 || gr.Increase[0].Kind != sim.ASetDesired {
+				continue
+			}
+			e, d := gr.Increase[0], gr.IncreaseCalls[0].Value
+			if e.Value <= e.PreDesired {
+				out = append(out, world.Violation{Prop: "C17", Sig: "C17:scale-up-lowers-desired", Msg: fmt.Sprintf("group %d: SetDesiredCapacity(%d) on a desired capacity of %d during a scale-up by %d", gr.G, e.Value, e.PreDesired, d)})
+			} else if e.Value != e.PreDesired+d {
+				out = append(out, world.Violation{Prop: "C17", Sig: "C17:set-desired-not-current-plus-delta", Msg: fmt.Sprintf("group %d: SetDesiredCapacity(%d), desired capacity was %d and the scale-up was by %d", gr.G, e.Value, e.PreDesired, d)})
+			}
+		}
+		return out
+	}, classify: func(w *world.World, rec *world.ScanRecord) []string {
+		disturbed := false
+		for _, a := range w.Log {
+			if a.Op == "asgDesired" || a.Op == "seq" {
+				disturbed = true
+			}
+		}
+		var keys []string
+		for _, gr := range rec.Groups {
+			if disturbed && len(gr.Increase) > 0 && gr.Increase[0].OK() {
+				keys = append(keys, fmt.Sprintf("resize|g=%d", gr.G))
+			}
+		}
+		return keys
+	}})
+}
 
 // quietScan: no failure injected or armed, no restart, and no node carries the escalator key twice
 // (which of two such taints counts is not defined).
